@@ -12,7 +12,7 @@ import common
 _ready = False
 
 
-def setup():
+def setup(limit_threads=True):
     global _ready, np, pd, torch, sps, pa
     if _ready:
         return
@@ -29,7 +29,8 @@ def setup():
     import scipy.sparse as sps
     import torch
 
-    torch.set_num_threads(1)
+    if limit_threads:
+        torch.set_num_threads(1)
     _ready = True
 
 
